@@ -171,6 +171,20 @@ CHECKS = {
              "the robust weights is not proved, only checked on the implementation. Tie rules: +-1 on at most max(1, n/50) cells per "
              "pair; a different lambda only when the re-computed criterion is tied to 1e-6. Axioms: real-number axioms of the standard library.",
         technique="Coq proof from the variational characterisation + metamorphic runs on the implementation + bit-exact correspondence"),
+    "C20": dict(
+        cat="proof",
+        text="Theorems (Props/C20.v, reals): the outputs of the generic model of tinterpolate are, in order, the means of the daily "
+             "Whittaker curve over the runs of equal labels, the runs tile the curve; a constant series yields that constant on every day, "
+             "observations linear in the day number of their marks yield exactly that line (both via the affine fixed-point law of C01/"
+             "C06 with weights = marks); the seeded last day has no influence unless it is marked. The binary64 instance (scatter, "
+             "temp[-1] = x[-1], lambda = 1e-5, sequential run sums, Python round) is compared bit-for-bit with the compiled kernel and "
+             "through whitint (int16, newtime); constant / linear exactness, output count, unmodified inputs and an exact (Fraction) daily "
+             "curve sample are checked on the implementation.",
+        ref="7 (C20)",
+        note="Trusted: Coq kernel + vm_compute; harness; contiguous labels (each value one run) and as many marks as observations; float64 "
+             "conditioning of the 1e-5 system over long records is measured on a budgeted exact sample (<= 260 days), not proved. "
+             "Axioms: real-number axioms of the standard library.",
+        technique="Coq proof (composition with C01/C06 laws, run-length lemmas) + bit-exact correspondence + exact-rational sample"),
 }
 
 PENDING = "no check has been built for this property yet (work in progress; see DESIGN.md section 7 for the plan)"
